@@ -191,6 +191,9 @@ inline Rational ratFromString(const char* desc)
             res = Rational(desc + 1);
          else
             res = Rational(desc);
+
+         // the conversion from a string does not reduce the fraction
+         res = Rational(numerator(res), denominator(res));
       }
       /* case 2: string is given as base-10 decimal number */
       else
@@ -237,6 +240,9 @@ inline Rational ratFromString(const char* desc)
             res = Rational(s.substr(1));
          else
             res = Rational(s);
+
+         // the conversion from a string does not reduce the fraction
+         res = Rational(numerator(res), denominator(res));
 
          res *= pow(10, mult);
       }
